@@ -20,8 +20,8 @@ Definition pl_close (colorder ordered : bool) (m o : table) : bool :=
 
 Definition cause_bit (c : cause) : N :=
   match c with
-  | CVocab => 256 | CReserved => 512 | CCmpNull => 1024 | CLogicNull => 2048 | CNullJoinKey => 8192
-  | CJoinKeyNames => 16384 | CJoinKeyRepr => 32768 | CSortNulls => 65536 | CEmptyProject => 131072 | CSortTies => 262144 | CGroupKeyRepr => 524288
+  | CVocab => 256 | CReserved => 512 | CCmpNull => 1024 | CLogicNull => 2048
+  | CJoinKeyed => 16384 | CSortNulls => 65536 | CEmptyProject => 131072 | CSortTies => 262144 | CGroupKeyRepr => 524288
   end%N.
 
 Definition flag (b : bool) (n : N) : N := if b then n else 0%N.
